@@ -326,6 +326,7 @@ def r16_4(ctx):
         raise AnalysisError("_Line.expand: the lines are not yielded one by one (a list is built and returned); the per-child suffix clause reads the generator form and is not decided here")
     from ..yieldpaths import consistent as _cons164
     T1 = {"self.node.is_tuple": True, "len(self.node.children) == 1": True, "node.is_tuple": True, "len(node.children) == 1": True}
+    hoisted_away, scen_seen = set(), set()
     for p in PX:
         loops = [e for e in p if e[0] == "loop" and e[2] in ("self.node.children", "node.children")]
         if len(loops) != 1:
@@ -341,6 +342,11 @@ def r16_4(ctx):
         var = loops[0][1]
         T = {"self.node.is_tuple": True, "len(self.node.children) == 1": True, "node.is_tuple": True, "len(node.children) == 1": True}
         for scen, want in ((T, "','"), ({"self.node.is_tuple": False, "node.is_tuple": False}, f"{var}.separator"), ({"len(self.node.children) == 1": False, "len(node.children) == 1": False}, f"{var}.separator")):
+            if not _cons164(p, scen):
+                # the case distinction was hoisted out of the loop: this path is the other case's loop
+                hoisted_away.add(tuple(sorted(scen.items())))
+                continue
+            scen_seen.add(tuple(sorted(scen.items())))
             sel = select(loops[0][3], scen)
             if not sel:
                 okx, badx = False, p
@@ -349,6 +355,11 @@ def r16_4(ctx):
                 n_child += 1
                 if len(ys) != 1 or suffix_of(ys[0]) != (var, want):
                     okx, badx = False, p
+    if hoisted_away - scen_seen:
+        # a case that no path with a child loop takes must be the written-out one-tuple case; any other leaves that case without children
+        t1_key = tuple(sorted(T1.items()))
+        written_out = any(not [e for e in p if e[0] == "loop"] and _cons164(p, T1) for p in PX)
+        okx = okx and all(k == t1_key and written_out for k in hoisted_away - scen_seen)
     ctx.check(okx, ex.fq, show(badx)[:300] if badx else "child suffix", ex.where, "expanded form: the single element of a tuple gets ',' and every other child its own separator",
               "_Line.expand no longer gives the single element of a tuple its trailing comma (or other children their separator)")
     ctx.floor(n_child + n_multi, 4, "grammar paths in iter_tokens / expand")
